@@ -259,7 +259,13 @@ func (t *Object) metaCheck(rt reflect.Type) (reflect.Type, error) {
 	verifYield("metaCheck")
 	t.mu.Lock()
 	defer t.mu.Unlock()
-	if t.meta == nil {
+	if t.meta != nil && sameGoType(t.meta, rt) {
+		return t.meta, nil
+	}
+	// Does the @go directive, or without one the name of the type, name the
+	// Go type?
+	named := false
+	if rt != nil {
 		bt := rt
 		for bt.Kind() == reflect.Ptr {
 			bt = bt.Elem()
@@ -271,15 +277,22 @@ func (t *Object) metaCheck(rt reflect.Type) (reflect.Type, error) {
 				// type name. Next short package name and finally just then
 				// name.
 				s, _ := a.Value.(string)
-				if s == bt.PkgPath()+"."+bt.Name() ||
+				named = s == bt.PkgPath()+"."+bt.Name() ||
 					s == bt.String() ||
-					s == bt.Name() {
-					t.meta = rt
-				}
+					s == bt.Name()
 			}
 		} else if t.N == bt.Name() { // If no @go directive then try using the GraphQL type name.
+			named = true
+		}
+	}
+	if named {
+		if t.meta == nil {
 			t.meta = rt
 		}
+		// The type can already be bound to another Go type, the first one
+		// met under a field of this type. A Go type that is named for the
+		// type is one of the type all the same.
+		return rt, nil
 	}
 	if t.meta == nil {
 		return t.meta, resError(t.line, t.col, "failed to determine union member %s implementation type. Use @go directive", t.N)
